@@ -12,6 +12,7 @@ from __future__ import annotations
 
 import ast
 
+from pv.q import text as qtext
 from pv.model import AnalysisError, walk_no_nested, params, UNKNOWN
 from pv.q import has_stmt, has_if, find_if, returns, body_texts
 
@@ -68,13 +69,13 @@ def rule_dict(model, rep):
     fd = model.func(T, "TOTP.from_dict")
     rep.check(has_if(fd, "not isinstance(source, dict) or 'type' not in source") and returns(fd) == ["cls(**cls._adapt_dict_kwds(**source))"], R, site("TOTP.from_dict"),
               "; ".join(returns(fd)), "from_dict adapts, then constructs")
-    rep.check("state['key'] = self.base32_key" in ast.unparse(fn) and "state['enckey'] = self.encrypted_key" in ast.unparse(fn), R, s, "key / enckey", "key is written as base32 text or as the encrypted record")
+    rep.check("state['key'] = self.base32_key" in qtext(fn) and "state['enckey'] = self.encrypted_key" in qtext(fn), R, s, "key / enckey", "key is written as base32 text or as the encrypted record")
     # key format default: constructor default format is base32 (what to_dict writes)
     a = ctor.args
     dflt = {ar.arg: ast.unparse(d) for ar, d in zip(a.args[-len(a.defaults):], a.defaults)}
     rep.check(dflt.get("format") == "'base32'", R, site("TOTP.__init__"), f"format={dflt.get('format')}", "plain `key` values are read as base32, the form to_dict() writes")
     tj = model.func(T, "TOTP.to_json")
-    rep.check("state = self.to_dict(encrypt=encrypt)" in ast.unparse(tj) and "json.dumps(state" in ast.unparse(tj), R, site("TOTP.to_json"), "json of to_dict", "JSON is the dict form")
+    rep.check("state = self.to_dict(encrypt=encrypt)" in qtext(tj) and "json.dumps(state" in qtext(tj), R, site("TOTP.to_json"), "json of to_dict", "JSON is the dict form")
     fj = model.func(T, "TOTP.from_json")
     rep.check(returns(fj) == ["cls.from_dict(json.loads(source))"], R, site("TOTP.from_json"), "; ".join(returns(fj)), "from_json = from_dict(json.loads)")
 
@@ -118,7 +119,7 @@ def rule_uri(model, rep):
         for e in init[0].value.elts:
             written.append(model.fold(model.unit(T), e.elts[0]))
     tu = model.func(T, "TOTP.to_uri")
-    if "params.append(('issuer', issuer))" in ast.unparse(tu):
+    if "params.append(('issuer', issuer))" in qtext(tu):
         written.append("issuer")
     ad = model.func(T, "TOTP._adapt_uri_params")
     read = set(params(ad)) - {"cls", "label"}
@@ -141,7 +142,7 @@ def rule_uri(model, rep):
     fp = model.func(T, "TOTP._from_parsed_uri")
     ft = ast.unparse(fp)
     rep.check("label = unquote(label[1:])" in ft, R, site("TOTP._from_parsed_uri"), "label = unquote(label[1:])", "the path label is unquoted exactly once")
-    loop = [n for n in walk_no_nested(fp) if isinstance(n, ast.For) and "parse_qsl(result.query)" in ast.unparse(n.iter)]
+    loop = [n for n in walk_no_nested(fp) if isinstance(n, ast.For) and "parse_qsl(result.query)" in qtext(n.iter)]
     ok = len(loop) == 1
     if ok:
         lb = [ast.unparse(x) for x in loop[0].body]
@@ -160,10 +161,10 @@ def rule_uri(model, rep):
     rep.check("elif params['issuer'] != issuer:" in ft and "conflicting issuer identifiers" in ft, R, site("TOTP._from_parsed_uri"), "conflicting issuers -> ValueError", "issuer prefix and parameter must agree")
     rep.check("issuer, label = label.split(':')" in ft and "malformed label" in ft, R, site("TOTP._from_parsed_uri"), "issuer:label split", "label prefix is split at ':' (more than one -> ValueError)")
     fu = model.func(T, "TOTP.from_uri")
-    rep.check(has_if(fu, "result.scheme != 'otpauth'") and "cls._check_otp_type(result.netloc)" in ast.unparse(fu), R, site("TOTP.from_uri"), "scheme/type checked", "scheme must be otpauth, type totp")
+    rep.check(has_if(fu, "result.scheme != 'otpauth'") and "cls._check_otp_type(result.netloc)" in qtext(fu), R, site("TOTP.from_uri"), "scheme/type checked", "scheme must be otpauth, type totp")
     ct = model.func(T, "TOTP._check_otp_type")
-    t = ast.unparse(ct)
-    rep.check("if type == 'totp':" in t and "raise ValueError" in t, R, site("TOTP._check_otp_type"), "unknown type -> ValueError", "unknown otp types are refused")
+    t = qtext(ct)
+    rep.check(t.loose("if type == 'totp':") and t.loose("raise ValueError"), R, site("TOTP._check_otp_type"), "unknown type -> ValueError", "unknown otp types are refused")
     rep.check(returns(model.func(T, "TOTP._uri_parse_error")) == ["ValueError(f'Invalid otpauth uri: {reason}')"], R, site("TOTP._uri_parse_error"), "ValueError", "URI errors are ValueErrors")
 
 
@@ -183,7 +184,7 @@ def rule_wallet(model, rep):
               "salt and ciphertext are base32-encoded; cost and tag stored as used")
     rep.check("secret=self.get_secret(tag)" in dt and "salt=b32decode(enckey['s'])" in dt and "cost=cost" in dt, R, site("AppWallet.decrypt_key"), "same secret/salt/cost roles",
               "decryption derives the key from the tagged secret, stored salt and stored cost", witness="decryption uses the default tag instead of the record's tag")
-    rep.check("self._cipher_aes_key(key, self.get_secret(tag), salt, cost)" in ast.unparse(enc), R, site("AppWallet.encrypt_key"), "cipher(key, secret, salt, cost)", "encryption argument roles")
+    rep.check("self._cipher_aes_key(key, self.get_secret(tag), salt, cost)" in qtext(enc), R, site("AppWallet.encrypt_key"), "cipher(key, secret, salt, cost)", "encryption argument roles")
     rep.check("if cost != self.encrypt_cost or tag != self.default_tag:" in dt, R, site("AppWallet.decrypt_key"), "needs_recrypt", "old cost / tag marks the object changed")
     rep.check(has_if(dec, "version == 1") and "raise ValueError" in dt, R, site("AppWallet.decrypt_key"), "version checked", "unknown record versions are refused")
     ck = model.func(T, "AppWallet._cipher_aes_key")
